@@ -332,3 +332,40 @@ Definition api_ok (t : vtype) : bool :=
   list_eqb (map fst (vt_getters t)) (map fst (vt_specs t)).
 Example api_consistent : forallb api_ok vtypes = true.
 Proof. vm_compute. reflexivity. Qed.
+
+(* ---- round 7b ---- *)
+(* decoders are read-only and idempotent: a call leaves the store as it was, and calling again gives the same *)
+Lemma getters_read_only (g : getter) (s : slice) :
+  snd (getter_step g s) = s /\ getter_step g (snd (getter_step g s)) = getter_step g s.
+Proof. split; reflexivity. Qed.
+Lemma valid_read_only (iv : slice -> res bool) (s : slice) :
+  snd (valid_step iv s) = s /\ valid_step iv (snd (valid_step iv s)) = valid_step iv s.
+Proof. split; reflexivity. Qed.
+
+(* LLDP.Type(t) = the 802.1AB TLV type table, any other type as its number *)
+Fixpoint lookupN (k : N) (t : list (N * string)) : option string :=
+  match t with [] => None | (k', v) :: r => if N.eqb k k' then Some v else lookupN k r end.
+Lemma LLDP_Type_spec t : LLDP_Type_name t = match lookupN t lldp_type_table with Some s => s | None => dec_of_N t end.
+Proof.
+  unfold LLDP_Type_name, lldp_type_table. cbn [lookupN].
+  repeat match goal with |- context [N.eqb t ?k] => destruct (N.eqb t k) end; reflexivity.
+Qed.
+
+(* LLDP.Capability: the code names the bits of the second octet from the most significant one; 802.1AB numbers them
+   from the least significant one: the code's answer is the spec's answer for the MIRRORED octet, for every value *)
+Definition mirror8 (b : N) : N :=
+  (b mod 2) * 128 + (b / 2 mod 2) * 64 + (b / 4 mod 2) * 32 + (b / 8 mod 2) * 16 +
+  (b / 16 mod 2) * 8 + (b / 32 mod 2) * 4 + (b / 64 mod 2) * 2 + (b / 128 mod 2).
+Lemma sweep256s (f g : N -> string) :
+  forallb (fun b => String.eqb (f b) (g b)) bytes256 = true -> forall b, b < 256 -> f b = g b.
+Proof.
+  intros H b Hb. rewrite forallb_forall in H. specialize (H b (in_bytes256 b Hb)). apply String.eqb_eq. exact H.
+Qed.
+Lemma LLDP_Capability_mirror a r : forall b, b < 256 ->
+  LLDP_Capability_s (a :: b :: r) = lldp_capability_spec (a :: mirror8 b :: r).
+Proof. apply (sweep256s (fun b => LLDP_Capability_s (a :: b :: r)) (fun b => lldp_capability_spec (a :: mirror8 b :: r))). vm_compute. reflexivity. Qed.
+Lemma LLDP_Capability_short v : (List.length v < 2)%nat -> LLDP_Capability_s v = lldp_capability_spec v.
+Proof. destruct v as [|a [|b r]]; cbn; intros H; try reflexivity; lia. Qed.
+Lemma LLDP_Capability_refuted :
+  LLDP_Capability_s [0; 16] = "AP"%string /\ lldp_capability_spec [0; 16] = "router"%string.
+Proof. split; vm_compute; reflexivity. Qed.
